@@ -197,6 +197,30 @@ def case_benchmark(case):
     return out
 
 
+HASHSEED_SCRIPT = r'''
+import json, random, sys
+sys.path.insert(0, sys.argv[1])
+import logging; logging.disable(logging.CRITICAL)
+from odetoolbox.spike_generator import SpikeGenerator
+stimuli = json.loads(sys.argv[2])
+random.seed(int(sys.argv[3]))
+r = SpikeGenerator.spike_times_from_json(stimuli, float(sys.argv[4]))
+print(json.dumps({k: [float(x) for x in v] for k, v in sorted(r.items())}))
+'''
+
+
+def stimulus_under_hashseed(stimuli, seed, sim_time, hashseed):
+    import subprocess
+    import sys
+    env = dict(os.environ)
+    env["PYTHONHASHSEED"] = str(hashseed)
+    p = subprocess.run([sys.executable, "-c", HASHSEED_SCRIPT, tb.REPO, json.dumps(stimuli), str(seed), str(sim_time)], stdout=subprocess.PIPE,
+                       stderr=subprocess.PIPE, text=True, timeout=120, env=env)
+    if p.returncode != 0:
+        return {"error": p.stderr[-300:]}
+    return json.loads(p.stdout.strip().split("\n")[-1])
+
+
 def _quads(rng, n):
     """step-size quadruples incl. all 27 below/at/above patterns x ratio settings"""
     out = []
@@ -366,6 +390,24 @@ def run(ctx, driver):
             if a.get("events") != ev:
                 ctx.tie_break("corr:stiff-proto", {"input": p, "model_head": (a.get("events") or a)[:6] if isinstance(a.get("events"), list) else a,
                                                    "impl_head": ev[:6], "model_len": len(a.get("events") or []), "impl_len": len(ev)})
+    # ---- (c) "reproducible for a fixed seed": the stimulus generated for a fixed seed must not depend on the interpreter's
+    #      hash randomisation (fresh interpreters under different PYTHONHASHSEED values)
+    rng3 = ctx.rng("hashseed")
+    for i in range(ctx.n(3, 20)):
+        targets = rng3.sample(["V_m", "I_syn", "g_ex'", "w", "x", "I_in"], rng3.choice([2, 3, 4]))
+        stimuli = [{"type": "poisson_generator", "rate": "300.0", "variables": targets}]
+        seed = rng3.randrange(1000)
+        outs = [stimulus_under_hashseed(stimuli, seed, 0.05, hs) for hs in (1, 2, 3)]
+        ctx.evaluations += 1
+        ctx.count("hashseed_runs", len(outs))
+        if any("error" in o for o in outs):
+            ctx.cov.setdefault("harness_errors", []).append(str(outs)[:300])
+            continue
+        ctx.note_nontrivial("hashseed:" + json.dumps([stimuli, seed]))
+        if not all(o == outs[0] for o in outs):
+            k = next(k for k in outs[0] if any(o.get(k) != outs[0][k] for o in outs))
+            ctx.fail("stimulus-not-reproducible-for-fixed-seed", {"stimuli": stimuli, "seed": seed, "sim_time": 0.05, "hashseeds": [1, 2, 3]},
+                     {"variable": k, "heads": [o.get(k, [])[:2] for o in outs], "signature": {"site": "spike_times_from_json", "what": "depends on PYTHONHASHSEED", "targets": len(targets) > 1}})
     ctx.assumptions += [
         "step sizes are measured through a stand-in for pygsl.odeiv (real PyGSL/GSL absent): the measured values themselves are outside the model",
         "floating-point rounding of dist_ratio*eps and avg_ratio*step_average_exp: the theorem is over ordered fields; the Float instance of the same definition is compared bit-for-bit with the code on every run",
